@@ -53,6 +53,25 @@ def filter_pool(rng, n, objs_tr):
         else:
             flt, feats = c11.gen_filter(rng)
             pool.append((flt, None, "filter/" + "+".join(sorted(set(f.split("/")[0] for f in feats)))))
+    # filters that extend another pool filter: same first key group, further keys (a second
+    # prop-filter or a time-range in the same component)
+    import copy
+    for (flt, tzid, shape) in list(pool):
+        try:
+            inner = flt["children"][0]
+        except (KeyError, IndexError):
+            continue
+        if inner.get("type") != "comp" or inner.get("is_not_defined") or not inner.get("children") or inner["name"] not in ("VEVENT", "VTODO", "VJOURNAL"):
+            continue
+        if rng.random() < 0.6:
+            ext = copy.deepcopy(flt)
+            e_in = ext["children"][0]
+            if rng.random() < 0.5 and e_in.get("time_range") is None:
+                e_in["time_range"] = (T0 - 12 * H, T0 + 36 * H)
+                pool.append((ext, tzid, shape + "+added-time-range"))
+            else:
+                e_in["children"].append({"type": "prop", "name": rng.choice(["DTSTART", "UID", "DTSTAMP", "SUMMARY"])})
+                pool.append((ext, tzid, shape + "+added-prop-exists"))
     return pool
 
 
